@@ -45,3 +45,31 @@ def set_text(values):
 
 def strset_text(values):
     return "{" + ",".join('"%s"' % v for v in values) + "}"
+
+
+def rejects(out, nfields):
+    """<<"REJECT", i, f1, ...>> tuples printed by a validator (TLC may wrap long tuples over several
+    lines and then pads the brackets with spaces).  Returns a list of tuples (i, f1, ...) of strings;
+    set-valued fields come back as the sorted, comma-joined member strings.  Raises ValueError when a
+    printed REJECT cannot be parsed (a rejection must never be lost silently)."""
+    flat = " ".join(out.split())
+    res = []
+    n = flat.count('"REJECT"')
+    for m in re.finditer(r'<<\s*"REJECT",\s*(.*?)\s*>>', flat):
+        body = m.group(1)
+        fields = []
+        for f in re.finditer(r'\{([^}]*)\}|"([^"]*)"|(TRUE|FALSE)|(-?\d+)', body):
+            if f.group(1) is not None:
+                fields.append(",".join(sorted(re.findall(r'"([^"]+)"', f.group(1)))))
+            elif f.group(2) is not None:
+                fields.append(f.group(2))
+            elif f.group(3) is not None:
+                fields.append(f.group(3))
+            else:
+                fields.append(f.group(4))
+        if len(fields) != nfields + 1:
+            raise ValueError("unparsable REJECT line: %s" % m.group(0)[:200])
+        res.append(tuple([int(fields[0])] + fields[1:]))
+    if len(res) != n:
+        raise ValueError("%d REJECT markers in the TLC output, %d parsed" % (n, len(res)))
+    return sorted(res)
